@@ -88,7 +88,7 @@ def run(run, replay=None):
     run.mc('Scope', SCOPE_CFG, note='order + level stack machine, complete graph (STRICT)')
     cat = Catalog()
     traces = build_traces(run, rng, cat)
-    can = writer_canaries(traces, rng, want=('order',))
+    can = run.tolerant(lambda: writer_canaries(traces, rng, want=('order',)))
     run.judge('Trace_WriteRead', traces + can, cat.tables(), canary_ids=[c['id'] for c in can],
               describe=describe)
     run.assumptions += ['any exception raised by a writer call counts as a rejection',
